@@ -16,8 +16,17 @@ type hHW struct {
 	n int
 }
 
+// create: entities of the source world live in different tables (none, plain, relation).
 func (y *hHW) create() Entity {
-	e := y.w.NewEntity()
+	var e Entity
+	switch y.n % 3 {
+	case 0:
+		e = y.w.NewEntity()
+	case 1:
+		e = y.w.NewEntity(ComponentID[hA](&y.w))
+	default:
+		e = y.w.NewEntity(ComponentID[hR1](&y.w))
+	}
 	vBound(y.n < hDumpH, "handles<=8")
 	y.h[y.n] = e
 	y.n++
